@@ -26,6 +26,8 @@ pub enum RecEv {
     Set(u64),
     DeleteOk(u64),
     Evicted(Vec<u8>, u64),
+    /// `Cache::remove` asked of the inner store by the policy layer (the unchanged code never does)
+    Removed(Vec<u8>, u64),
     Len(usize),
 }
 
@@ -81,7 +83,11 @@ impl Cache for Recorder {
         r
     }
     fn remove(&self, key: &KeyType) -> Option<(KeyType, Record)> {
-        self.inner.remove(key)
+        let r = self.inner.remove(key);
+        if let Some((k, rec)) = &r {
+            self.log.lock().unwrap().push(RecEv::Removed(k.to_vec(), rec.len() as u64));
+        }
+        r
     }
 }
 
